@@ -151,6 +151,11 @@ def join_blocks(
     module = block1.module
     assert ir and module and block2.section
 
+    if _verif.ENABLED:
+        _verif.emit(
+            "join_blocks_begin", cache=cache, block1=block1, block2=block2
+        )
+
     if not block1.size:
         # The joined block will have block2's contents, so symbols at the end
         # of block2 need to stay at the end of the joined block.
